@@ -58,7 +58,7 @@ AsmContext::AsmContext() :
   error                  { false },
   msp430_cpu4            { false },
   ignore_symbols         { false },
-  pass_1_write_disable   { false },
+  pass_1_write_disable   { true },
   write_list_file        { false },
   dump_symbols           { false },
   dump_macros            { false },
@@ -118,7 +118,9 @@ void AsmContext::init()
   can_tick_end_string    = false;
   numbers_dont_have_dots = false;
   msp430_cpu4            = false;
-  pass_1_write_disable   = false;
+  // The default CPU is the MSP430: its pass 1 size flags must not be
+  // overwritten by pass 1 output (cpu_list[] sets this for ".msp430").
+  pass_1_write_disable   = true;
   ignore_number_postfix  = false;
   flags                  = 0;
   extra_context          = 0;
